@@ -85,7 +85,11 @@ func ScramSHA256PlusAuth(username, password string, tlsConnState *tls.Connection
 }
 
 // Start initializes the SCRAM authentication process and returns the selected algorithm, nil data, and no error.
+//
+// Every exchange starts with fresh state: what an earlier exchange that used the same scramAuth value has left
+// behind (its nonce, salted password and auth message) must not validate a message of this one.
 func (a *scramAuth) Start(_ *ServerInfo) (string, []byte, error) {
+	a.reset()
 	return a.algorithm, nil, nil
 }
 
